@@ -135,7 +135,7 @@ def main(chk):
             # the same with the known finding's region excluded: S >= 2 dt
             jobs.append(('bit-precise/path %s/no gap at iteration %d (S >= 2 dt)' % (key, j + 1), pre_fp + pc + [FS.fcmp('oge', Vs, FS.fmul(2.0, Vd))], S.cmp('le', b, S.mk('iadd', (a, S.iconst(1, 64)), 'I', 64)), 'gap-far', None))
     chk.log('bit-precise: %d paths, %d cbmc obligations' % (c2.paths_done, len(jobs)))
-    tmo = 120 if quick else 900
+    tmo = 120 if quick else 300
     outs = par.pmap(lambda i: cemit.run_cbmc(jobs[i][1], jobs[i][2], tmo, workdir=work), len(jobs), procs=8)
     for (nm, assumes, claim, kind, _), (st, model, dt_) in zip(jobs, outs):
         chk.solver_s += dt_; chk.queries += 1
